@@ -13,21 +13,21 @@ open Flox Flox.PartialAxis
 
 namespace DriverOps
 
-def parseAxis (s : String) : Option (Option (List Int)) :=
+private def parseAxis (s : String) : Option (Option (List Int)) :=
   if s = "-" then some none
   else if s.startsWith "i" then (s.drop 1).toInt?.map fun i => some [i]
   else (parseList String.toInt? s).map some
 
-def parseMethod : String → Option (Option Method)
+private def parseMethod : String → Option (Option Method)
   | "-" => some none
   | "map-reduce" => some (some .mapreduce)
   | "cohorts" => some (some .cohorts)
   | "blockwise" => some (some .blockwise)
   | _ => none
 
-def showNats (xs : List Nat) : String := ",".intercalate (xs.map toString)
+private def showNats (xs : List Nat) : String := ",".intercalate (xs.map toString)
 
-def showPOutcome : POutcome → String
+private def showPOutcome : POutcome → String
   | .ok sh vs => "ok " ++ showNats sh ++ "|" ++ showVals vs
   | .err e => "err " ++ e
   | .unsupported w => "unsupported " ++ w
